@@ -4,6 +4,7 @@ import OrbitModel.Proofs.LoadChain
 import OrbitModel.Proofs.LoadExamples
 import OrbitModel.Proofs.GenEqLoad
 import OrbitModel.Proofs.LoadRejoin
+import OrbitModel.Proofs.LoadMore
 /-!
 # C15 — `Load(n)` shows the newest `min(n, total)` entries, in order; `n ≤ 0` loads all; never panics
 
@@ -68,10 +69,35 @@ log invariant (every log reachable by appends and honest joins) and every fetche
 theorem the_second_join_of_load_is_a_trim {U : List Entry} (hU : HashDet U) (hT : TieFree U) (hM : ClockMono U)
     (acl : Acl) (fetch : Nat → OMap) (amount : Int) {L : Log} (h : Nat) (hG : Good U L)
     (hF : Fetched U L (fetch h)) :
-    loadHeadExact acl fetch amount L h ≠ .error .panic ∧
-    ∀ r, loadHeadExact acl fetch amount L h = .ok r →
+    loadHeadExact acl (missingFetch L fetch) amount L h ≠ .error .panic ∧
+    ∀ r, loadHeadExact acl (missingFetch L fetch) amount L h = .ok r →
       ∃ r', loadHead acl fetch amount L h = .ok r' ∧ values r = values r' :=
-  loadHeadExact_is_loadHead hU hT hM acl fetch amount h hG hF
+  loadHeadExact_is_loadHead hU hT hM acl (missingFetch L fetch) amount h hG (fetched_missing hF)
+
+/-- **"load more"**: an unlimited `Load` of one cached head into ANY log that satisfies the log
+invariant — empty, loaded with a limit, written to or replicated into since — lists exactly what the
+log held plus everything the fetcher brought for that head (after the `fix:` commit, finding F36:
+only the entries the log does not hold are handed to `Join`, which does not walk through held ones) -/
+theorem load_more_lists_everything_fetched {U : List Entry} (hU : HashDet U) (hT : TieFree U) (hM : ClockMono U)
+    (acl : Acl) (fetch : Nat → OMap) {L : Log} (h : Nat) (hG : Good U L)
+    (hF : Fetched U L (fetch h)) (hacc : ∀ e ∈ fetch h, acceptable acl.canAppend e = true) :
+    ∃ L', loadHead acl fetch (-1) L h = .ok L' ∧
+      ∀ e, e ∈ values L' ↔ e ∈ L.entries ∨ e ∈ fetch h :=
+  loadHead_all_values hU hT hM acl fetch h hG hF hacc
+
+/-- Refutation witness for the tree before that repair: the store that holds the two newest entries of
+the 4-chain (after `Load(2)`) and is asked to `Load(-1)`, or `Load(3)`: `Join`, handed the whole
+fetched log, stopped at the held head and merged nothing — 2 entries listed; now 4, and 3 (replayed
+on the real store by `liveload` steps in the limit family: corpus/C15/f36) -/
+theorem load_more_loaded_nothing_below_what_was_held_before_the_fix :
+    open LoadExample in
+    lst (Except.ok top2) = .ok [3, 4] ∧
+    lst (loadHead1 acl (fun _ => [c4, c3, c2, c1]) (-1) top2 4) = .ok [3, 4] ∧
+    lst (loadHead acl (fun _ => [c4, c3, c2, c1]) (-1) top2 4) = .ok [1, 2, 3, 4] ∧
+    lst (loadHead1 acl (fun _ => [c4, c3, c2]) 3 top2 4) = .ok [3, 4] ∧
+    lst (loadHead acl (fun _ => [c4, c3, c2]) 3 top2 4) = .ok [2, 3, 4] ∧
+    lst (loadHead acl (fun _ => [c4, c3]) 2 top2 4) = .ok [3, 4] :=
+  LoadExample.load_more_witness
 
 /-- Refutation witness for the tree before that repair: a store that holds `c3` without its parents
 (a log with a hole) and is asked to `Load(3)` estimated 4 merged entries, asked `Join` to keep 3, and
